@@ -2,7 +2,7 @@
 
 use super::good_lp::{collect_good_lp_duals, solve_with_good_lp};
 use super::{LpSolution, SolverError, find_invalid_variables};
-use crate::math::VariableType;
+use crate::math::{OptimizationType, VariableType};
 use crate::transformers::LinearModel;
 use ::clarabel::solver::SolverStatus;
 use ::good_lp::SolutionWithDual;
@@ -70,7 +70,15 @@ pub fn solve_real_lp_problem_clarabel(lp: &LinearModel) -> Result<LpSolution<f64
                 solution.inner().status,
                 SolverStatus::DualInfeasible | SolverStatus::AlmostDualInfeasible
             ) {
-                return Err(SolverError::Unbounded);
+                // Dual infeasibility alone does not prove unboundedness: the
+                // primal may be infeasible as well. The objective is unbounded
+                // only if some point satisfies the constraints.
+                let mut feasibility = lp.clone();
+                feasibility.set_objective(vec![], OptimizationType::Satisfy);
+                return match solve_real_lp_problem_clarabel(&feasibility) {
+                    Ok(_) => Err(SolverError::Unbounded),
+                    Err(e) => Err(e),
+                };
             }
             Ok(())
         },
